@@ -411,7 +411,7 @@ class Report:
         os.makedirs(os.path.join(ROOT, "evidence"), exist_ok=True)
         rdir = os.path.join(WORK, "replay")
         os.makedirs(rdir, exist_ok=True)
-        for i, (key, what, replay) in enumerate(self.violations):
+        for i, (key, what, replay) in enumerate(self.violations[:8]):
             path = os.path.join(rdir, "%s_%s_%d.json" % (self.id, self.seed, i))
             replay = dict(replay)
             replay.update({"property": self.id, "key": key, "what": what, "seed": self.seed,
